@@ -181,7 +181,7 @@ fn shape_for(kind: usize) -> usize {
 // ---------------------------------------------------------------------------------------------
 // S1: one requests() call, events on client connections only
 // ---------------------------------------------------------------------------------------------
-// @harness props=C07,C08,C09,C10,C13 props_thorough=C11,C03 tiers=quick:K=0,N=0,M=11|K=3,N=0,M=11|K=4,N=0,M=11|K=5,N=0,M=11|K=14,N=0,M=11|K=1,N=4,M=11|K=7,N=2,M=11|K=8,N=2,M=11|K=9,N=3,M=11|K=6,N=5,M=11|K=10,N=0,M=11|K=10,N=3,M=11|K=10,N=5,M=11;thorough:K=0,N=0,M=11|K=3,N=0,M=11|K=4,N=0,M=11|K=5,N=0,M=11|K=14,N=0,M=11|K=1,N=4,M=11|K=7,N=2,M=11|K=8,N=2,M=11|K=9,N=3,M=11|K=6,N=5,M=11|K=10,N=0,M=11|K=10,N=3,M=11|K=10,N=5,M=11|K=0,N=4,M=11|K=3,N=4,M=11|K=4,N=4,M=11|K=5,N=4,M=11|K=14,N=4,M=11|K=7,N=3,M=11|K=7,N=5,M=11|K=8,N=3,M=11|K=8,N=5,M=11|K=9,N=2,M=11|K=9,N=5,M=11|K=10,N=1,M=11|K=10,N=2,M=11|K=10,N=4,M=11 unwind=6 cap=600 mem=4 covers=2
+// @harness props=C07,C08,C09,C10,C13 props_thorough=C11,C03 tiers=quick:K=0,N=0,M=11|K=3,N=0,M=11|K=4,N=0,M=11|K=5,N=0,M=11|K=14,N=0,M=11|K=1,N=4,M=11|K=6,N=2,M=11|K=7,N=2,M=11|K=8,N=2,M=11|K=9,N=3,M=11|K=6,N=5,M=11|K=10,N=0,M=11|K=10,N=3,M=11|K=10,N=5,M=11;thorough:K=0,N=0,M=11|K=3,N=0,M=11|K=4,N=0,M=11|K=5,N=0,M=11|K=14,N=0,M=11|K=1,N=4,M=11|K=6,N=2,M=11|K=7,N=2,M=11|K=8,N=2,M=11|K=9,N=3,M=11|K=6,N=5,M=11|K=10,N=0,M=11|K=10,N=3,M=11|K=10,N=5,M=11|K=0,N=4,M=11|K=3,N=4,M=11|K=4,N=4,M=11|K=5,N=4,M=11|K=14,N=4,M=11|K=7,N=3,M=11|K=7,N=5,M=11|K=8,N=3,M=11|K=8,N=5,M=11|K=9,N=2,M=11|K=9,N=5,M=11|K=10,N=1,M=11|K=10,N=2,M=11|K=10,N=4,M=11 unwind=6 cap=600 mem=2 covers=2
 // @fn HttpServer::requests ClientConnection::read ClientConnection::write ClientConnection::is_done ClientConnection::clear_write_buffer HttpServer::epoll_mod HttpServer::epoll_del
 // @stubs std::fmt::format
 // @claim one polling step from any state satisfying the server invariant, with admissible events on the client connections: the call returns normally (never an error); afterwards every remaining connection satisfies the invariant again (pending output <=> AwaitingOutgoing with OUT interest; AwaitingIncoming => IN interest; no failed epoll_ctl); a connection is removed (deregistered and closed once) iff it is Closed with nothing pending and no request in flight; requests are yielded only with the id of the connection they were read from, as many as were parsed, and the in-flight count grows by exactly that number; a parse error yields nothing, leaves the count alone and queues exactly one 400; a queued 100-continue switches the connection to writing; at most one read and one write per connection and step, and never a write on a closed connection; the event buffer holds MAX_CONNECTIONS+2 entries
@@ -317,7 +317,7 @@ fn srv_requests_clients() {
 // ---------------------------------------------------------------------------------------------
 // S2: listener event: accept below capacity / refuse at capacity (C10, C04, C07)
 // ---------------------------------------------------------------------------------------------
-// @harness props=C10,C04,C07 props_thorough=C03 tiers=quick:N=0|N=1|N=2;thorough:N=0|N=1|N=2 unwind=132 cap=1500 mem=4 covers=1
+// @harness props=C10,C04,C07 props_thorough=C03 tiers=quick:N=0|N=1|N=2|N=2,M=4|N=2,M=5;thorough:N=0|N=1|N=2|N=2,M=1|N=2,M=4|N=2,M=5 unwind=132 cap=1500 mem=2 covers=1
 // @fn HttpServer::requests HttpServer::handle_new_connection HttpServer::epoll_add HttpConnection::set_payload_max_size
 // @stubs std::fmt::format
 // @claim a readable listener with N connections open (capacity MAX_CONNECTIONS=2 in this configuration): below capacity the client is accepted - non-blocking, registered for IN|RDHUP under its own descriptor as id, AwaitingIncoming, nothing in flight, payload limit = the limit configured at the server at that moment; at capacity the client is accepted only to receive exactly the documented 503 message and is dropped (closed once, never registered), and no existing connection is removed or changed; the polling function returns normally
@@ -331,9 +331,13 @@ fn srv_accept() {
         add_conn(&mut srv, C0, 0);
     }
     if NCONN >= 2 {
-        add_conn(&mut srv, C1, 0);
+        // M: shape of the second connection (a closed one that still waits for an answer must
+        // not be evicted to make room)
+        add_conn(&mut srv, C1, crate::verif_params::M);
     }
     let pre = [view(&srv, C0), view(&srv, C1)];
+    // a closed connection is only still in the table because the application holds a request
+    kani::assume(!(pre[1].present && pre[1].state == 2) || pre[1].in_flight >= 1);
     let limit = srv.payload_max_size;
     let w = world();
     w.backlog = 1;
@@ -364,7 +368,7 @@ fn srv_accept() {
         let v = view(&srv, fd);
         assert!(v.present == pre[k].present && v.state == pre[k].state && v.in_flight == pre[k].in_flight && v.pending == pre[k].pending, "[C10,C07] existing connection disturbed by a new client");
         if v.present {
-            assert!(sinv_conn(&v, fd) && w.closed[fd as usize] == 0);
+            assert!(sinv_conn(&v, fd) && w.closed[fd as usize] == 0 && w.open[fd as usize], "[C07,C10] existing connection closed to make room");
         }
         k += 1;
     }
@@ -376,7 +380,7 @@ fn srv_accept() {
 // ---------------------------------------------------------------------------------------------
 // S3: kill switch (C18)
 // ---------------------------------------------------------------------------------------------
-// @harness props=C18 props_thorough=C03 tiers=quick:K=11,N=0,M=1|K=4,N=0,M=2|K=14,N=0,M=2|K=3,N=0,M=1|K=10,N=0,M=2|K=12,N=0,M=2|K=12,N=0,M=1|K=4,N=0,M=0|K=9,N=3,M=2;thorough:K=11,N=0,M=1|K=11,N=0,M=0|K=0,N=0,M=2|K=3,N=0,M=2|K=3,N=0,M=1|K=4,N=0,M=2|K=5,N=0,M=2|K=14,N=0,M=2|K=14,N=0,M=1|K=7,N=2,M=2|K=9,N=3,M=2|K=10,N=0,M=2|K=10,N=3,M=1|K=12,N=0,M=2|K=12,N=0,M=1|K=12,N=0,M=0|K=6,N=5,M=2|K=4,N=0,M=0 unwind=6 cap=600 mem=4 covers=1
+// @harness props=C18 props_thorough=C03 tiers=quick:K=11,N=0,M=1|K=4,N=0,M=2|K=14,N=0,M=2|K=3,N=0,M=1|K=10,N=0,M=2|K=12,N=0,M=2|K=12,N=0,M=1|K=4,N=0,M=0|K=9,N=3,M=2;thorough:K=11,N=0,M=1|K=11,N=0,M=0|K=0,N=0,M=2|K=3,N=0,M=2|K=3,N=0,M=1|K=4,N=0,M=2|K=5,N=0,M=2|K=14,N=0,M=2|K=14,N=0,M=1|K=7,N=2,M=2|K=9,N=3,M=2|K=10,N=0,M=2|K=10,N=3,M=1|K=12,N=0,M=2|K=12,N=0,M=1|K=12,N=0,M=0|K=6,N=5,M=2|K=4,N=0,M=0 unwind=6 cap=600 mem=2 covers=1
 // @fn HttpServer::requests HttpServer::add_kill_switch
 // @stubs std::fmt::format
 // @claim a batch that contains the kill-switch event makes the polling function return the shutdown indication - wherever the event stands in the batch and whatever the other event is (readable connection that completes requests, writable, hang-up, listener with a client waiting) - and the event buffer offered to epoll_wait has room for the listener, the kill switch and every connection; without a kill switch registered, or without its event, no shutdown is reported
@@ -428,7 +432,7 @@ fn srv_kill() {
 // ---------------------------------------------------------------------------------------------
 // S4: respond() (C07, C08)
 // ---------------------------------------------------------------------------------------------
-// @harness props=C07,C08 props_thorough=C03 tiers=quick:N=0,M=0|N=1,M=0|N=4,M=0|N=0,M=1|N=2,M=2;thorough:N=0,M=0|N=1,M=0|N=2,M=0|N=3,M=0|N=4,M=0|N=5,M=0|N=0,M=1|N=5,M=1|N=2,M=2|N=0,M=2 unwind=6 cap=1500 mem=4 covers=1
+// @harness props=C07,C08 props_thorough=C03 tiers=quick:N=0,M=0|N=1,M=0|N=4,M=0|N=0,M=1|N=2,M=2;thorough:N=0,M=0|N=1,M=0|N=2,M=0|N=3,M=0|N=4,M=0|N=5,M=0|N=0,M=1|N=5,M=1|N=2,M=2|N=0,M=2 unwind=6 cap=1500 mem=2 covers=1
 // @fn HttpServer::respond ClientConnection::enqueue_response HttpServer::epoll_mod
 // @stubs std::fmt::format
 // @claim respond(id): only the connection whose descriptor equals the id changes; on an open connection the response is appended to its output, the in-flight count drops by one and the connection ends up AwaitingOutgoing with OUT interest (no lost wake-up); on a closed connection the response is dropped but still counted; an unknown id changes nothing and is not an error; the invariant holds afterwards
@@ -486,7 +490,7 @@ fn srv_respond() {
 // ---------------------------------------------------------------------------------------------
 // S5: the limit of a live connection is the one configured when it connected (C04)
 // ---------------------------------------------------------------------------------------------
-// @harness props=C04 tiers=quick;thorough unwind=6 cap=900 mem=4 covers=1
+// @harness props=C04 tiers=quick;thorough unwind=6 cap=900 mem=2 covers=1
 // @fn HttpServer::set_payload_max_size
 // @claim changing the server's payload limit does not change the limit of a connection that is already open
 // @bounds one open connection, old and new limit symbolic
@@ -506,7 +510,7 @@ fn srv_limit_fixed_at_connect() {
 // ---------------------------------------------------------------------------------------------
 // S6: ClientConnection::read / enqueue_response on their own (C07 accounting, C13, C11)
 // ---------------------------------------------------------------------------------------------
-// @harness props=C07,C13,C11 props_thorough=C08,C10,C03 tiers=quick:K=0|K=1|K=2|K=3|K=4|K=5|K=13|K=14;thorough:K=0|K=1|K=2|K=3|K=4|K=5|K=13|K=14 unwind=6 cap=900 mem=4 covers=1
+// @harness props=C07,C13,C11 props_thorough=C08,C10,C03 tiers=quick:K=0|K=1|K=2|K=3|K=4|K=5|K=13|K=14;thorough:K=0|K=1|K=2|K=3|K=4|K=5|K=13|K=14 unwind=6 cap=900 mem=2 covers=1
 // @fn ClientConnection::read ClientConnection::enqueue_response ClientConnection::is_done
 // @stubs std::fmt::format
 // @claim ClientConnection::read for every outcome class of try_read: the requests handed to the caller are exactly the ones parsed (none after an error), the in-flight count grows by exactly their number and by nothing else (requests discarded by a parse error were never counted and are not subtracted), a parse error queues exactly one 400, pending output switches the connection to AwaitingOutgoing whether or not requests were yielded, end of stream closes it; then enqueue_response on that connection: count decremented by one, response queued unless the connection is closed; is_done <=> closed and nothing pending and count 0
